@@ -16,7 +16,7 @@ from pyplumio.exceptions import ProtocolError
 from pyplumio.frames import Frame
 from pyplumio.frames.requests import StartMasterRequest
 from pyplumio.helpers.event_manager import EventManager
-from pyplumio.stream import FrameReader, FrameWriter
+from pyplumio.stream import READER_TIMEOUT, WRITER_TIMEOUT, FrameReader, FrameWriter
 from pyplumio.structures.network_info import (
     EthernetParameters,
     NetworkInfo,
@@ -195,12 +195,22 @@ class AsyncProtocol(Protocol, EventManager[PhysicalDevice]):
 
     async def shutdown(self) -> None:
         """Shutdown the protocol and close the connection."""
-        await self._queues.join()
+        if self.connected.is_set():
+            # Let the producer flush the queued frames, but don't wait for
+            # ever: the controller may be silent or the connection may drop.
+            try:
+                await asyncio.wait_for(
+                    self._queues.join(), timeout=READER_TIMEOUT + WRITER_TIMEOUT
+                )
+            except asyncio.TimeoutError:
+                _LOGGER.warning("Timed out, while waiting for the queues to drain")
+
         self.cancel_tasks()
         await self.wait_until_done()
         if self.connected.is_set():
             await self._connection_close()
-            await asyncio.gather(*(device.shutdown() for device in self.data.values()))
+
+        await asyncio.gather(*(device.shutdown() for device in self.data.values()))
 
     async def frame_producer(
         self, queues: Queues, reader: FrameReader, writer: FrameWriter
